@@ -4,5 +4,5 @@ CONSTANTS
   PjCases <- LayCases
   PjMaxChoices = 3
   PjData <- D2
-INVARIANTS PjTypeOK InvIsInverse LocalsWin OrderKept OmitMeaning CanonAgrees EmitPj
+INVARIANTS PjTypeOK InvIsInverse LocalsWin RewrittenLocalsWin OrderKept OmitMeaning CanonAgrees EmitPj
 CHECK_DEADLOCK FALSE
